@@ -580,3 +580,86 @@ theorem toNx_ok {t : Tbl} (hw : WF t) (roots : List Int) (hm : ∀ r ∈ roots, 
     exact I.graphOK.reach hr (k x hx)
 
 end DD
+
+namespace DD
+
+/-! ### an executable evaluator of the exported graph -/
+
+/-- follow the FIRST matching edge; `fuel` bounds the path length -/
+def evalGraphF (g : Graph) (a : Asg) : Nat → Nat → Option Bool
+  | 0, _ => none
+  | f+1, u =>
+    match g.1.lookup u with
+    | none => none
+    | some l =>
+      if u = 1 then some true else
+      match g.2.find? (fun e => e.1 == u && e.2.2.1 == a l) with
+      | none => none
+      | some e => (evalGraphF g a f e.2.1).map (· ^^ e.2.2.2)
+
+theorem lookup_of_hasKey {ns : List (Nat × Nat)} {u : Nat} (h : HasKey ns u) :
+    ∃ l, ns.lookup u = some l ∧ (u, l) ∈ ns := by
+  induction ns with
+  | nil => obtain ⟨l, hl⟩ := h; simp at hl
+  | cons p ns ih =>
+    obtain ⟨k, v⟩ := p
+    rw [List.lookup_cons]
+    by_cases hk : u = k
+    · subst hk; exact ⟨v, by simp, by simp⟩
+    · have hne : (u == k) = false := by simpa using hk
+      rw [hne]
+      obtain ⟨l, hl⟩ := h
+      have : (u, l) ∈ ns := by
+        rcases List.mem_cons.mp hl with h' | h'
+        · cases h'; exact absurd rfl hk
+        · exact h'
+      obtain ⟨l', e, m⟩ := ih ⟨l, this⟩
+      exact ⟨l', e, List.mem_cons_of_mem _ m⟩
+
+/-- the executable evaluator computes the denotation on a faithful export -/
+theorem evalGraphF_eq {t : Tbl} (hw : WF t) {g : Graph} (hg : GraphOK t g) (a : Asg) :
+    ∀ f (u : Nat), t.Mem (u : Int) → HasKey g.1 u → t.nvars + 1 ≤ f + t.levelOf (u : Int) →
+      evalGraphF g a f u = some (den t (u : Int) a) := by
+  intro f
+  induction f with
+  | zero => intro u _ _ hf; have := levelOf_le t hw (u : Int); omega
+  | succ f ih =>
+    intro u hm hk hf
+    obtain ⟨l, hlook, hmem⟩ := lookup_of_hasKey hk
+    rw [evalGraphF, hlook]
+    rcases mem_nat_cases hm with h1 | ⟨h1, n, hn⟩
+    · subst h1; simp only [if_true]
+      have : den t ((1 : Nat) : Int) a = true := den_one t a
+      rw [this]
+    · simp only [h1, if_false]
+      have hl : l = n.lvl := by rw [(hg.nodes u l hmem).2]; exact levelOf_nat_node hw hn
+      obtain ⟨elo, ehi, klo, khi⟩ := hg.closed u l hmem n hn
+      have hlu := levelOf_nat_node hw hn
+      cases hfind : g.2.find? (fun e => e.1 == u && e.2.2.1 == a l) with
+      | none =>
+        exfalso
+        have h0 := List.find?_eq_none.mp hfind
+        cases hal : a l
+        · have := h0 _ elo; simp [loEdge, hal] at this
+        · have := h0 _ ehi; simp [hiEdge, hal] at this
+      | some e =>
+        have hp := List.find?_some hfind
+        have he := List.mem_of_find?_eq_some hfind
+        simp only [Bool.and_eq_true, beq_iff_eq] at hp
+        obtain ⟨n', hn', hform⟩ := hg.edges e he
+        rw [hp.1, hn] at hn'; cases hn'
+        simp only
+        rw [den_nat_node hw hn a, ← hl, ← hp.2]
+        rcases hform with hform | hform
+        · rw [hform]
+          simp only [loEdge]
+          rw [ih _ (mem_natAbs (hw.lo_mem _ _ hn)) klo (by
+            rw [levelOf_natAbs]; have := hw.lo_lt _ _ hn; omega)]
+          simp [Bool.xor_comm]
+        · rw [hform]
+          simp only [hiEdge]
+          rw [ih _ (mem_natAbs (hw.hi_mem _ _ hn)) khi (by
+            rw [levelOf_natAbs]; have := hw.hi_lt _ _ hn; omega)]
+          simp
+
+end DD
